@@ -233,7 +233,7 @@ Definition spec_convert_row (nullstr mdt : str) (names : list str) (drops : list
                   else bind (spec_item nullstr mdt (snd nx)) (fun c => Ok (IVal c)))
        (kept_of drops (combine names r)).
 
-Definition spec_read (i : input) : res (list str * list (list cell)) :=
+Definition spec_read (i : input) : res (list (str * list cell)) :=
   bind (column_info (i_options i)) (fun ci =>
   let names := ci_names ci in
   let drops := ci_drop ci in
@@ -250,6 +250,129 @@ Definition spec_read (i : input) : res (list str * list (list cell)) :=
       bind (filterM (spec_filters_row names (ci_syn ci) nullstr (i_mdt i) (negb (is_nil ign)) fs) rows) (fun rows' =>
       bind (mapM (fun r => spec_convert_row nullstr (i_mdt i) names drops (spec_shape (length names) r)) rows')
            (fun crows =>
-      bind (postprocess knames (map (fun _ => false) knames) nullstr (i_mdt i) crows) (fun out =>
-      Ok (knames, out))))
+      postprocess (id_label knames) (has_date knames) nullstr (i_mdt i)
+                  (columns_of knames (map (fun _ => false) knames) crows)))
   end end))).
+
+(* =====================================================================================================
+   Guards of reader_refines.  Conjuncts marked [finding] are there because the CODE departs from the
+   documented rule (each has a _refuted theorem in Refuted.v and an entry in known_findings);
+   conjuncts marked [class] delimit the input class (documentation silent / outside the model).
+   ===================================================================================================== *)
+Definition doc_text_char (c : N) : bool := N.eqb c c_tab || N.eqb c c_nl || (N.leb 32 c && N.leb c 126)%N.
+(* [class] printable ASCII, TAB and newline only *)
+Definition g_alphabet (i : input) : bool := forallb doc_text_char (i_text i).
+
+(* [finding] IGNORE=^ and IGNORE=\ make the comment pattern an invalid regular expression *)
+Definition g_ignchar (i : input) : bool := negb (regex_unsafe (ign_char (i_ignchar i))).
+
+(* [finding] a comment on the last line without a final newline is not removed *)
+Definition g_last_comment (i : input) : bool :=
+  negb (comment_line (ign_char (i_ignchar i)) (snd (lines_tail (i_text i)))).
+
+(* [finding] a blank line is only reported at the end of the text or before an empty line *)
+Definition g_blank (i : input) : bool :=
+  let ic := ign_char (i_ignchar i) in
+  let (ls, t) := lines_tail (i_text i) in
+  let kept := filter (fun l => negb (comment_line ic l)) ls in
+  negb (existsb (forallb is_blankc) (file_lines (kept, t))) || blank_error kept t.
+
+Definition data_lines (i : input) : list str :=
+  filter (fun l => negb (spec_comment (ign_char (i_ignchar i)) l)) (all_lines (i_text i)).
+Definition data_rows (i : input) : list (list str) := map spec_items (data_lines i).
+
+Definition edge_tab (l : str) : bool :=
+  match dropwhile (N.eqb c_sp) l with c :: _ => N.eqb c c_tab | [] => false end ||
+  match dropwhile (N.eqb c_sp) (rev l) with c :: _ => N.eqb c c_tab | [] => false end.
+(* [class] no row starts or ends with a TAB (the documentation does not say what that means) *)
+Definition g_edge_tab (i : input) : bool := forallb (fun l => negb (edge_tab l)) (data_lines i).
+
+Definition first_width (i : input) : nat := match data_rows i with r0 :: _ => length r0 | [] => 0 end.
+
+(* [finding] a first row with more items than $INPUT raises KeyError (pandas 3) *)
+Definition g_first_width (names : list str) (i : input) : bool := first_width i <=? length names.
+(* [finding] rows are cut to the width of the first row before they are padded *)
+Definition g_rows_within (names : list str) (i : input) : bool :=
+  forallb (fun r => Nat.min (length r) (length names) <=? first_width i) (data_rows i).
+
+Definition filter_kind (f : filt) : okind :=
+  match f_op f with
+  | None => KStr
+  | Some t => match op_of_text t with Some tok => snd (op_table tok) | None => KStr end
+  end.
+Definition is_kstr (k : okind) : bool := match k with KStr => true | KFloat => false end.
+
+(* [finding] a text filter on a column the file does not have sees the NULL padding *)
+Definition g_filter_cols (names : list str) (syn : list (str * str)) (i : input) : bool :=
+  forallb (fun f => negb (is_kstr (filter_kind f)) ||
+                    match index_of (filter_column syn f) names with
+                    | Some j => j <? first_width i
+                    | None => true
+                    end) (i_ignore i ++ i_accept i).
+
+(* columns whose items are converted to numbers: parsed columns and numerically filtered columns *)
+Fixpoint parse_flags (names : list str) (drops : list bool) : list bool :=
+  match names, drops with
+  | nm :: ns, d :: ds => parse_col nm d :: parse_flags ns ds
+  | _, _ => []
+  end.
+Definition numeric_filter_col (names : list str) (syn : list (str * str)) (i : input) (j : nat) : bool :=
+  existsb (fun f => negb (is_kstr (filter_kind f)) &&
+                    match index_of (filter_column syn f) names with Some k => Nat.eqb k j | None => false end)
+          (i_ignore i ++ i_accept i).
+Definition conv_flags (names : list str) (drops : list bool) (syn : list (str * str)) (i : input) : list bool :=
+  map (fun jp => snd jp || numeric_filter_col names syn i (fst jp))
+      (combine (seq 0 (length names)) (parse_flags names drops)).
+
+Fixpoint items_ok (p : str -> bool) (flags : list bool) (r : list str) : bool :=
+  match flags, r with
+  | f :: fs, x :: xs => (negb f || p x) && items_ok p fs xs
+  | _, _ => true
+  end.
+Definition g_items (p : str -> bool) (names : list str) (drops : list bool) (syn : list (str * str)) (i : input) : bool :=
+  forallb (items_ok p (conv_flags names drops syn i)) (data_rows i).
+
+(* [finding] a dropped ID / L1 column must hold Python int literals *)
+Definition g_id_drop (names : list str) (drops : list bool) (i : input) : bool :=
+  match id_label names with
+  | None => true
+  | Some l =>
+      match index_of l names with
+      | None => true
+      | Some j => negb (nth j drops false) ||
+                  forallb (fun r => match nth_error r j with Some x => pyint_ok x | None => false end) (data_rows i)
+      end
+  end.
+(* [class] when the id column is dropped no other id column takes over *)
+Definition g_id_choice (names : list str) (drops : list bool) : bool :=
+  match id_label names with
+  | None => true
+  | Some l => match index_of l names with
+              | Some j => negb (nth j drops false) || is_nil (match id_label (kept_names names drops) with Some x => [x] | None => [] end)
+              | None => true
+              end
+  end.
+(* [class] no DATE/DAT1/DAT2/DAT3 column (TIME/DATE translation is not covered) *)
+Definition g_no_date (names : list str) : bool := negb (has_date names).
+(* [class] column names (dropped ones included) are unique *)
+Definition g_names_unique (names : list str) : bool := nodup_s names.
+
+Definition item_signed_d_ok (x : str) : bool := negb (signed_d x).
+Definition item_anchored_ok (x : str) : bool := g_anchored x.
+Definition item_charset_ok (x : str) : bool := g_charset x.
+
+(* the conjuncts, in the order of the guard tags 201.. of Check.verdict *)
+Definition guard_conjuncts (i : input) : list bool :=
+  match column_info (i_options i) with
+  | Err _ => []
+  | Ok ci =>
+      let names := ci_names ci in
+      let drops := ci_drop ci in
+      let syn := ci_syn ci in
+      [ g_alphabet i; g_ignchar i; g_last_comment i; g_blank i; g_edge_tab i;
+        g_first_width names i; g_rows_within names i; g_filter_cols names syn i;
+        g_items item_signed_d_ok names drops syn i; g_items item_anchored_ok names drops syn i;
+        g_items item_charset_ok names drops syn i;
+        g_id_drop names drops i; g_id_choice names drops; g_no_date names; g_names_unique names ]
+  end.
+Definition guard (i : input) : bool := forallb (fun b => b) (guard_conjuncts i).
